@@ -61,6 +61,14 @@ func GenerateIndexing(t *rapid.T, kind string, use func(string) bool) *Program {
 			g.p.Funcs = append(g.p.Funcs, &Func{Name: "id_" + wt.String(), Ret: wt, Params: []Param{{Name: "x", T: wt}}, Body: []Stmt{&Return{X: &Var{T: wt, Name: "x"}}}})
 		}
 	}
+	// module-level constants that the local index variables of s0 shadow (their values are far
+	// out of range: a compiler that confuses the two rejects or misreads valid accesses)
+	if g.chance(3, "shadowed_globals") {
+		for _, nm := range []string{"fi", "vi"} {
+			g.p.Globals = append(g.p.Globals, &Let{Name: nm, T: i32, Init: &Lit{T: i32, I: big.NewInt(int64(90 + len(g.p.Globals)))}, Const: true})
+		}
+		g.use("index.locals_shadow_module_constants")
+	}
 	var mayFail *Func
 	f := &Func{Name: "s0"}
 	arr := "arr"
